@@ -41,7 +41,8 @@ MANIFEST = {
             "(reimpl_eq_fft2, reimpl_inverse_pair); the pinned SheppLoganDataset.fft (shifts swapped) is refuted "
             "(shepp_fft_pinned_violates, shepp_fft_pinned_differs) and shown invisible on even sizes "
             "(shepp_fft_pinned_agrees_on_even); a translated table says that no function of the mechanism writes module / "
-            "function state, updates an argument in place, has mutable defaults / decorators or returns early (transforms_pure). "
+            "function state, updates an argument in place, reads an ambient torch mode (autocast / grad mode / default dtype / backend "
+            "flags; private helpers of the module are followed), has mutable defaults / decorators or returns early (transforms_pure). "
             "Tied to the code by translated shift amounts / narrow offsets / cat order / call plan / dtype test / re-implementation "
             "plans / purity facts / call-site table (bridge lemmas) and by differential correspondence (exact on labelled tensors "
             "for the shifts; exact symbolic root-of-unity answers vs torch under 1e-5 for fft2/ifft2, for the numpy "
@@ -65,7 +66,8 @@ MANIFEST = {
             "converts fftfreq layout to centred layout and is the correct direction.",
     "technique": "Lean 4 proof (list/index arithmetic, plan interpretation, alongAxis lifting, multi-index sums, Mathlib ZMod.dft) + "
                  "AST translation bridge (kernels, plans, structural tables) + differential correspondence + property oracle with "
-                 "call histories",
+                 "call histories and ambient torch modes (autocast bf16/fp16, no_grad, inference_mode, default dtype float64, "
+                 "requires_grad inputs, deterministic algorithms; all 8 flag combinations)",
 }
 TRUSTED = [
     "Lean 4.33 kernel; axioms ⊆ {propext, Classical.choice, Quot.sound}",
